@@ -30,6 +30,7 @@ import (
 	"github.com/synnaxlabs/x/address"
 	"github.com/synnaxlabs/x/errors"
 	"verifkit/schedx"
+	"verifkit/seqx"
 	"verifkit/vk"
 )
 
@@ -218,27 +219,76 @@ var (
 	inflightName string
 )
 
-func TestCheck(t *testing.T) {
-	r := vk.New("C11", "model_checking")
-	quick := r.Quick()
+func allScenarios(quick bool) []scenario {
 	scs := []scenario{
 		{"P1 3 members same view, 2 concurrent joins via members 1,2, no faults", 3, false, 2, false},
 		{"P2 3 members same view, 2 concurrent joins, message faults", 3, false, 2, true},
 		{"P3 3 members, members 1,2 stale about node 4 (joined via 3), 2 concurrent joins, faults", 3, true, 2, true},
 	}
+	if !quick {
+		scs = append(scs, scenario{"P4 4 members same view, 3 concurrent joins, faults", 4, false, 3, true},
+			scenario{"P5 1 member, 2 concurrent joins, faults", 1, false, 2, true})
+	}
+	return scs
+}
+
+// TestRace is the free-running pass: the same scenario bodies with real goroutines, built
+// with -race. The cooperative scheduler preempts only at synchronisation operations and its
+// hand-offs are happens-before edges that blind the race detector, so accesses that are not
+// synchronised at all (two jurors' answers written to one variable, say) are looked for here.
+func TestRace(t *testing.T) {
+	rounds := 20
+	if os.Getenv("VERIF_TIER") == "thorough" {
+		rounds = 400
+	}
+	free := func(threads ...func()) bool {
+		var wg sync.WaitGroup
+		for _, f := range threads {
+			wg.Add(1)
+			go func() { defer wg.Done(); f() }()
+		}
+		wg.Wait()
+		return false
+	}
+	for i := 0; i < rounds; i++ {
+		for _, sc := range allScenarios(false) {
+			sc.faults = false
+			var res string
+			_ = body(sc, &res)(t, free)
+		}
+	}
+	fmt.Println("RACE-PASS rounds", rounds)
+}
+
+func TestCheck(t *testing.T) {
+	r := vk.New("C11", "model_checking")
+	quick := r.Quick()
+	scs := allScenarios(quick)
 	bound := 2
 	offs := []uint64{0, 1, 2}
 	if !quick {
 		bound = 3
 		offs = []uint64{0, 1, 2, 3, 5}
-		scs = append(scs, scenario{"P4 4 members same view, 3 concurrent joins, faults", 4, false, 3, true},
-			scenario{"P5 1 member, 2 concurrent joins, faults", 1, false, 2, true})
 	}
 	if r.Replay != "" {
 		v, err := vk.LoadReplay(r.Replay)
 		if err != nil {
 			fmt.Fprintln(os.Stderr, err)
 			os.Exit(2)
+		}
+		if strings.HasPrefix(v.Scenario, "L1 ") {
+			if err := seqx.Replay(lifecycleCfg(r), v.Trace); err != nil {
+				var vv *vk.Violation
+				if errors.As(err, &vv) {
+					vv.Scenario, vv.Trace = v.Scenario, v.Trace
+					r.Report(vv)
+				} else {
+					r.HarnessError("replay: %v", err)
+				}
+			} else {
+				fmt.Println("replay: no violation reproduced")
+			}
+			r.Finish()
 		}
 		for _, sc := range append(scs, scenario{"P4 4 members same view, 3 concurrent joins, faults", 4, false, 3, true}, scenario{"P5 1 member, 2 concurrent joins, faults", 1, false, 2, true}) {
 			if !strings.HasPrefix(v.Scenario, sc.name) {
@@ -264,6 +314,10 @@ func TestCheck(t *testing.T) {
 			break
 		}
 		r.Finish()
+	}
+	vk.FoldRace(r, "/zverif/")
+	if os.Getenv("VERIF_SHARD") == "" {
+		lifecyclePart(r)
 	}
 	shard, shards, child := r.Sharded(12)
 	if !child && shards > 1 {
